@@ -22,4 +22,13 @@ Emit == pc = "done" =>
                             resets |-> resets, fresets |-> fresets,
                             order |-> order, cancelled |-> cancelled,
                             outcome |-> outcome, err |-> ret.err, off |-> ret.off])>>)
+
+\* multi-round behaviours (KeepHist): refreshes and rounds in order, each round as above
+EmitSes == (pc = "done" /\ round = MaxRounds) =>
+  PrintT(<<"SES", ToJson(hist \o <<Summary>>)>>)
+\* simulation only (random deep behaviours): skip the degenerate shapes that a uniform choice of
+\* the next step favours (hardly any path, no client); the exhaustive configurations cover those
+SimShape ==
+  /\ pc = "clients" => Len(offered) >= 2
+  /\ pc \in {"sticky", "sample", "launch", "collect", "done"} => nc >= 1
 =============================================================================
